@@ -34,6 +34,8 @@ structure PoolObs where
   S : List SusObs
   D : List Nat
   done : Nat
+  snap : List (Nat × Nat × Nat × Bool) := []
+  victims : List Nat := []
 deriving Repr, Inhabited, DecidableEq
 
 structure WorldObs where
@@ -80,7 +82,8 @@ def Ctr.toSusObs (c : Ctr) : SusObs :=
   { cid := c.cid, cpu := c.cpu, ram := c.ram, left := c.suspLeft, idx := c.curOpIdx, ops := c.ops }
 def Pool.toObs (p : Pool) : PoolObs :=
   { ac := p.availC, ar := p.availR, cons := p.consumed, capc := p.capC, capr := p.capR,
-    A := p.active.map Ctr.toObs, S := p.suspending.map Ctr.toSusObs, D := p.suspended.map (·.cid), done := p.numCompleted }
+    A := p.active.map Ctr.toObs, S := p.suspending.map Ctr.toSusObs, D := p.suspended.map (·.cid), done := p.numCompleted,
+    snap := p.killSnap, victims := p.victims }
 def World.toObs (w : World) : WorldObs :=
   { st := (List.range w.store.st.size).map w.store.stOf,
     cnt := (List.range w.pipes.size).map (fun pid => OpState.all.map (w.store.count pid)),
@@ -224,6 +227,104 @@ def chkC09 (err : Option String) (state : Option WorldObs) (res : List ResObs) (
     { s6 with seenRes := s6.seenRes ++ res.map (fun r => r.cid) }
   | _, _, _ => s0
 
+/-! ### C10: suspension -/
+
+def findA (p : PoolObs) (cid : Nat) : Option CtrObs := p.A.find? (fun c => c.cid == cid)
+def findS (p : PoolObs) (cid : Nat) : Option SusObs := p.S.find? (fun c => c.cid == cid)
+
+def writeOut (cfg : Cfg) (ram : Nat) : Nat := max 1 (ram / cfg.g)
+
+def chkSuspendReq (t : ETrace) (err : Option String) (w : WorldObs) (s : ChkState) (rq : Nat × Nat) : ChkState :=
+  let pp : PoolObs := s.prev.pools.getD rq.1 default
+  match findA pp rq.2 with
+  | none => s.req err.isSome "suspend-of-non-running-rejected"
+  | some c =>
+    if !c.canSuspend then s.req err.isSome "suspend-off-boundary-rejected"
+    else if err.isSome then s
+    else
+      let np : PoolObs := w.pools.getD rq.1 default
+      let wo := writeOut t.cfg c.ram
+      let s1 : ChkState := s.req ((findA np rq.2).isNone) "suspended-leaves-running"
+      if wo == 1 then
+        (s1.req (np.D.contains rq.2 && (findS np rq.2).isNone) "one-tick-suspension-ends-at-once").req
+          ((c.ops.drop c.idx).all (fun o => stAt w.st o == pending) && (c.ops.take c.idx).all (fun o => stAt w.st o == completed)) "work-returned-intact"
+      else
+        match findS np rq.2 with
+        | none => s1.fail "suspension-duration"
+        | some so =>
+          (s1.req (so.left == ((wo : Nat) : Int) - 1 && so.idx == c.idx && so.cpu == c.cpu && so.ram == c.ram && so.ops == c.ops) "suspension-duration").req
+            ((c.ops.drop c.idx).all (fun o => stAt w.st o == suspending)) "suspending-state"
+
+def chkSuspending (w : WorldObs) (i : Nat) (s : ChkState) (so : SusObs) : ChkState :=
+  let np : PoolObs := w.pools.getD i default
+  if so.left - 1 == 0 then
+    (s.req (np.D.contains so.cid && (findS np so.cid).isNone && (findA np so.cid).isNone) "suspension-ends-on-time").req
+      ((so.ops.drop so.idx).all (fun o => stAt w.st o == pending) && (so.ops.take so.idx).all (fun o => stAt w.st o == completed)) "work-returned-intact"
+  else
+    match findS np so.cid with
+    | none => s.fail "suspension-no-progress"
+    | some n => s.req (n.left == so.left - 1 && n.idx == so.idx && n.ops == so.ops && n.cpu == so.cpu && n.ram == so.ram) "suspension-no-progress"
+
+def chkCanSuspendFlag (pp : PoolObs) (s : ChkState) (c : CtrObs) : ChkState :=
+  let pidx : Nat := match findA pp c.cid with | some o => o.idx | none => 0
+  s.req (c.canSuspend == (decide (c.idx > pidx) && decide (c.idx < c.ops.length))) "can-suspend-iff-boundary"
+
+def chkC10 (t : ETrace) (err : Option String) (state : Option WorldObs) (res : List ResObs) (s : ChkState) : ChkState :=
+  match state with
+  | none => s
+  | some w =>
+    let s1 : ChkState := s.pendS.foldl (chkSuspendReq t err w) s
+    if err.isSome then s1 else
+    let npools := s.prev.pools.length
+    let s2 : ChkState := (List.range npools).foldl (fun (a : ChkState) (i : Nat) =>
+        (s.prev.pools.getD i default).S.foldl (chkSuspending w i) a) s1
+    let s3 : ChkState := (List.range npools).foldl (fun (a : ChkState) (i : Nat) =>
+        (w.pools.getD i default).A.foldl (chkCanSuspendFlag (s.prev.pools.getD i default)) a) s2
+    let gone : List Nat := s.pendS.map (fun x => x.2) ++ s.prev.pools.flatMap (fun p => p.S.map (fun x => x.cid))
+    s3.req (res.all (fun r => !gone.contains r.cid)) "suspended-reports-no-result"
+
+/-! ### C11 / C04: the OOM killer, from the snapshot taken when it is entered -/
+
+def scoreGeObs (a b : Nat × Nat × Nat × Bool) : Bool := a.2.1 * a.2.1 * b.2.2.1 ≥ b.2.1 * b.2.1 * a.2.2.1
+
+/-- one pool, one tick: `snap` = (cid, usage, allocation, finished) entering the killer, `victims` in kill order -/
+def killsOkB (over : Bool) (capr : Nat) (snap : List (Nat × Nat × Nat × Bool)) (victims : List Nat) : List String :=
+  let own := snap.filter (fun x => decide (x.2.1 > x.2.2.1))
+  let ownIds := own.map (fun x => x.1)
+  let total := nsum (snap.map (fun x => x.2.1))
+  let afterOwn := total - nsum (own.map (fun x => x.2.1))
+  let v2 := victims.filter (fun v => !ownIds.contains v)
+  let cands := snap.filter (fun x => !x.2.2.2 && decide (x.2.1 > 0) && !ownIds.contains x.1)
+  let usageOf (v : Nat) : Nat := match snap.find? (fun x => x.1 == v) with | some x => x.2.1 | none => 0
+  let entry (v : Nat) : Nat × Nat × Nat × Bool := (snap.find? (fun x => x.1 == v)).getD (v, 0, 1, true)
+  let c1 := if ownIds.all (fun v => victims.contains v) then [] else ["over-own-limit-killed"]
+  let c2 := if v2.all (fun v => cands.any (fun x => x.1 == v)) then [] else ["finished-or-idle-never-chosen"]
+  let c3 := if v2.isEmpty || (over && decide (afterOwn > capr)) then [] else ["kill-justified"]
+  -- before each pool-level kill the usage exceeds the capacity (no kill that was not needed)
+  let rec needed (vs : List Nat) (usage : Nat) : Bool :=
+    match vs with
+    | [] => true
+    | v :: rest => decide (usage > capr) && needed rest (usage - usageOf v)
+  let c4 := if needed v2 afterOwn then [] else ["kills-are-needed"]
+  let remaining := afterOwn - nsum (v2.map usageOf)
+  let survivors := cands.filter (fun x => !v2.contains x.1)
+  let c5 := if decide (remaining ≤ capr) || survivors.isEmpty then [] else ["stops-only-when-usage-fits"]
+  let c6 := if v2.all (fun v => survivors.all (fun x => scoreGeObs (entry v) x)) then [] else ["no-higher-scorer-survives"]
+  let c7 := if nodupB victims && victims.all (fun v => snap.any (fun x => x.1 == v)) then [] else ["victims-are-running-containers"]
+  c1 ++ c2 ++ c3 ++ c4 ++ c5 ++ c6 ++ c7
+
+def chkKills (t : ETrace) (which : String) (err : Option String) (state : Option WorldObs) (res : List ResObs) (s : ChkState) : ChkState :=
+  match err, state with
+  | none, some w =>
+    let s1 : ChkState := w.pools.foldl (fun (a : ChkState) (p : PoolObs) =>
+        (killsOkB t.cfg.overcommit p.capr p.snap p.victims).foldl (fun (b : ChkState) (c : String) =>
+          if which == "C11" || c == "kill-justified" || c == "over-own-limit-killed" then b.fail c else b) a) s
+    -- every failed result is a victim of this tick's killer and vice versa
+    let failed : List Nat := (res.filter (fun r => !r.ok)).map (fun r => r.cid)
+    let vict : List Nat := w.pools.flatMap (fun p => p.victims)
+    s1.req (failed.all (fun c => vict.contains c) && vict.all (fun c => failed.contains c)) "failed-results-are-the-victims"
+  | _, _ => s
+
 def chkTick (t : ETrace) (which : String) (s : ChkState) (err : Option String) (state : Option WorldObs)
     (res : List ResObs) : ChkState :=
   let s1 : ChkState := match state with
@@ -237,6 +338,8 @@ def chkTick (t : ETrace) (which : String) (s : ChkState) (err : Option String) (
       let c : ChkState := if which == "C03" then chkC03 t err w b else b
       if which == "C04" && err.isNone then c.req (w.pools.all memoryOkB) "memory-limits" else c
   let s2 : ChkState := if which == "C09" then chkC09 err state res s1 else s1
+  let s2 : ChkState := if which == "C10" then chkC10 t err state res s2 else s2
+  let s2 : ChkState := if which == "C11" || which == "C04" then chkKills t which err state res s2 else s2
   match state with
   | some w => { s2 with prev := w, pendA := [], pendS := [] }
   | none => { s2 with pendA := [], pendS := [] }
